@@ -149,7 +149,8 @@ class RefInterp(Interp):
                     o = self.exec_block(h.body, [c1.unset("$exc")])
                     for kind in Out.KINDS:
                         for c2 in o.get(kind):
-                            if h.name:
+                            if h.name and h.name in c2.env:
+                                # the implicit `del name` at the end of the clause (nothing happens when the handler unbound the name itself)
                                 c2 = c2.emit(("delname", h.name)).unset(h.name)
                             c2 = c2.set("$handling", prev) if prev is not None else c2.unset("$handling")
                             pending.add(kind, c2)
@@ -354,7 +355,7 @@ class RefInterp(Interp):
             ncs = []
             for c in cs:
                 if isinstance(tgt, ast.Name):
-                    ncs.append(c.emit(("delname", tgt.id)))
+                    ncs.append(c.emit(("delname", tgt.id)).unset(tgt.id))
                 elif isinstance(tgt, ast.Subscript):
                     for c1, base in self.ev(tgt.value, c, out):
                         for c2, idx in self.ev(tgt.slice, c1, out):
